@@ -20,7 +20,7 @@ def phi_leaves(t):
     return [([], t)]
 
 
-def check_loop(chk, inst, res, where, *, jaxpr=P("jaxpr"), eqns=None, const_wrap=None, invar_value=None, dispatch_ok=None, rule="INTERP-SKELETON", wrap_invals=None):
+def check_loop(chk, inst, res, where, *, jaxpr=P("jaxpr"), eqns=None, const_wrap=None, invar_value=None, dispatch_ok=None, rule="INTERP-SKELETON", wrap_invals=None, final_read=True):
     """obligations of the canonical loop: bind constvars -> bind invars -> for eqn: read invars, get_bind_params, subfuns+invals, dispatch|bind,
     wrap single result, write outvars -> read jaxpr.outvars"""
     eff = res.env.get("__effects__", [])
@@ -78,6 +78,8 @@ def check_loop(chk, inst, res, where, *, jaxpr=P("jaxpr"), eqns=None, const_wrap
         if kind == "dispatch" and dispatch_ok is not None:
             chk.require(dispatch_ok(conds, prim), rule, inst + "/dispatch-guard", "dispatch only when the handler handles this primitive", derived=str([show(c[0])[:80] for c in conds]), expected="if handler.handles(eqn.primitive)", where=where)
     # final read
+    if not final_read:
+        return dict(outvals=outvals, leaves=leaves)
     ret = res.ret
     okret = is_call(ret, "safe_map") and is_env_method(ret[2][0], "read") and ret[2][1] == A("outvars")
     chk.require(okret, rule, inst + "/outputs", "outputs read after the loop", derived=show(ret)[:160], expected="safe_map(env.read, jaxpr.outvars)", where=where)
